@@ -100,6 +100,10 @@ def o_find(tseq: str, qseq: str, ntp: int, nqp: int, ignore_mods: bool, tp0: int
     sub = SF.is_subsequence(q, t, order=True) if not ignore_mods else None
     if sub is not None and sub != (len(want) > 0):
         return _fail(why="is_subsequence(order=True)", got=sub, want=len(want) > 0)
+    # ProForma strings instead of annotation objects
+    got_s = SF.find_subsequence_indices(t.serialize(), q.serialize(), ignore_mods=ignore_mods)
+    if list(got_s) != want:
+        return _fail(why="find_subsequence_indices on strings", target=t.serialize(), query=q.serialize(), ignore_mods=ignore_mods, got=list(got_s), want=want)
     # the annotation methods are entry points of their own (the module-level functions do not go through all of them)
     if not ignore_mods:
         m1 = q.is_subsequence(t)
